@@ -12,6 +12,7 @@ AllSpecials == {"loop", "nat64", "relay", "wrongtr"}
 \* top3:   one listen address, four observed addresses, five connections of five groups: reaches
 \*         more than MaxTop eligible addresses with unequal counts.
 \* race:   three connections (two of one group) for C17_Race.tla (Check/Record split, close interleaving).
+\* async:  two connections for C17_Async.tla (identify events through the bounded worker queue).
 \* groups6: seven connections of five groups, three observed addresses; exhaustive check only.
 Table == [
   groups |-> [locals |-> {"tcp"}, addrs |-> <<"a1", "a2">>, specials |-> AllSpecials,
@@ -30,6 +31,10 @@ Table == [
      localOf  |-> [c1 |-> "tcp", c2 |-> "tcp", c3 |-> "tcp"],
      remoteOf |-> [c1 |-> "r1", c2 |-> "r2", c3 |-> "r3"],
      groupOf  |-> [r1 |-> "g1", r2 |-> "g2", r3 |-> "g1"]],
+  async |-> [locals |-> {"tcp"}, addrs |-> <<"a1", "a2">>, specials |-> {"loop"},
+     localOf  |-> [c1 |-> "tcp", c2 |-> "tcp"],
+     remoteOf |-> [c1 |-> "r1", c2 |-> "r2"],
+     groupOf  |-> [r1 |-> "g1", r2 |-> "g2"]],
   groups6 |-> [locals |-> {"tcp"}, addrs |-> <<"a1", "a2", "a3">>, specials |-> {"loop", "wrongtr"},
      localOf  |-> [c1 |-> "tcp", c2 |-> "tcp", c3 |-> "tcp", c4 |-> "tcp", c5 |-> "tcp", c6 |-> "tcp", c7 |-> "tcp"],
      remoteOf |-> [c1 |-> "r1", c2 |-> "r2", c3 |-> "r3", c4 |-> "r4", c5 |-> "r5", c6 |-> "r6", c7 |-> "r7"],
